@@ -91,7 +91,9 @@ Proof. intros ser_ext. split; [exact (native_stable ser_ext) | exact (native_lis
 Print Assumptions C16_native_values_survive_json.
 
 (* Flattening any column object (the attributes of whatever column class) keeps identity, name, type, precision,
-   scale, element type, nullability, default, aliases, description and the three statistics. *)
+   scale, element type, nullability, default, aliases, description and the three statistics.  [normalised]: member
+   type or 0, member / no element type, DECIMAL with its parameters, and the default of a typed column is a fixed
+   point of its type's parse with length None (to_flatcolumn does not pass the length on). *)
 Theorem C16_to_flatcolumn_keeps :
   forall (parse : str -> params -> pv -> result pv) (fresh : str) (c : column) (s : str),
   c_name c = PA (AText s) -> normalised parse c ->
